@@ -157,10 +157,46 @@ def gen_naming():
     return t
 
 
+def gen_visitor():
+    """T-table: node structs of pkg/dsl with their node-holding fields, and the fields VisitChildren / DefaultRewrite touch
+    per case (go/types + go/ast tool harness/go/visitor)."""
+    import subprocess
+    from vlib import VERIF, CACHE, GOENV
+    exe = os.path.join(CACHE, "bin", "visitor")
+    p = subprocess.run(["go", "build", "-o", exe, "./visitor"], cwd=os.path.join(VERIF, "harness", "go"), env=dict(GOENV),
+                       stdout=subprocess.PIPE, stderr=subprocess.PIPE, text=True)
+    if p.returncode != 0:
+        raise RuntimeError("cannot build the visitor inventory tool: " + p.stderr[-1500:])
+    p = subprocess.run([exe, os.path.join(REPO, "tooling")], env=dict(GOENV), stdout=subprocess.PIPE, stderr=subprocess.PIPE, text=True)
+    if p.returncode != 0:
+        raise RuntimeError("visitor inventory failed (does the tree type-check?): " + p.stderr[-1500:])
+    d = json.loads(p.stdout)
+
+    def sl(xs):
+        return "[" + "; ".join('"%s"' % x for x in xs) + "]"
+    L = ["(* GENERATED on every run by harness/lib/gentables.py (go/types + go/ast inventory harness/go/visitor). Do not edit. *)",
+         "From Coq Require Import List String.", "Import ListNotations.", "Open Scope string_scope.", "",
+         "(* every struct of pkg/dsl that implements dsl.Node, with the fields whose type can hold Nodes *)",
+         "Definition node_fields : list (string * list string) :=",
+         "  [" + ";\n   ".join('("%s", %s)' % (n, sl(fs)) for n, fs in sorted(d["nodes"].items())) + "].", ""]
+    for fn, name in (("VisitChildren", "visit_children_cases"), ("DefaultRewrite", "default_rewrite_cases")):
+        cases = d["visited"].get(fn, {})
+        L += ["(* the fields each case of the type switch in %s touches *)" % fn, "Definition %s : list (string * list string) :=" % name,
+              "  [" + ";\n   ".join('("%s", %s)' % (t.lstrip("*"), sl(fs)) for t, fs in sorted(cases.items())) + "].", ""]
+    text = "\n".join(L)
+    path = os.path.join(COQ, "Gen", "Visitor.v")
+    old = open(path).read() if os.path.exists(path) else None
+    if old != text:
+        with open(path, "w") as f:
+            f.write(text)
+    return d
+
+
 def regenerate(ctx):
     gen_phases()
     gen_map_sites(ctx)
     gen_naming()
+    gen_visitor()
     t = json.loads(ctx.hook_call(["tables"]))
     L = ["(* GENERATED on every run from /repo by harness/lib/gentables.py (hook `yardl-verif tables`). Do not edit. *)",
          "From Coq Require Import NArith.", "From YV Require Import Model.Binary.", "Open Scope N_scope.", "",
